@@ -136,7 +136,7 @@ func NewObs() *Obs {
 	return o
 }
 
-func (o *Obs) Use(l *Log)   { o.cur.Store(l) }
+func (o *Obs) Use(l *Log)    { o.cur.Store(l) }
 func (o *Obs) Current() *Log { return o.cur.Load().(*Log) }
 
 // St is called first in every generated rule body.
